@@ -28,6 +28,8 @@ import (
 	"fmt"
 	"go/ast"
 	"go/token"
+	"os"
+	"path/filepath"
 	"sort"
 	"strings"
 )
@@ -220,6 +222,11 @@ func xc09Analyse(body ast.Node, scope xc09Scope, skip *ast.FuncLit) (writes []st
 				}
 			}
 		case *ast.CallExpr:
+			if se, ok := s.Fun.(*ast.SelectorExpr); ok {
+				// x.m(…): possibly a method of a same-package type (resolved by name against the
+				// package's method declarations; a package-qualified call pkg.F never matches one)
+				calls = append(calls, "."+se.Sel.Name)
+			}
 			if id, ok := s.Fun.(*ast.Ident); ok {
 				calls = append(calls, id.Name)
 				// builtins that write through their first argument
@@ -269,14 +276,34 @@ func xc09Unrecognised(w *leanWriter, why string) error {
 }
 
 func extractClosureWrites(repo string, w *leanWriter) error {
-	_, f, err := parseFile(repo, xc09File)
+	// every non-test file of package verify: functions by name, methods by ".name" (all receivers)
+	dir := filepath.Dir(filepath.Join(repo, xc09File))
+	ents, err := os.ReadDir(dir)
 	if err != nil {
 		return xc09Unrecognised(w, err.Error())
 	}
 	funcs := map[string]*ast.FuncDecl{}
-	for _, d := range f.Decls {
-		if fd, ok := d.(*ast.FuncDecl); ok && fd.Recv == nil {
-			funcs[fd.Name.Name] = fd
+	methods := map[string][]*ast.FuncDecl{}
+	for _, e := range ents {
+		n := e.Name()
+		if e.IsDir() || !strings.HasSuffix(n, ".go") || strings.HasSuffix(n, "_test.go") {
+			continue
+		}
+		_, f, err := parseFile(repo, filepath.Join(filepath.Dir(xc09File), n))
+		if err != nil {
+			return xc09Unrecognised(w, err.Error())
+		}
+		if strings.Contains(n, "_verif") { // build-tagged verification hooks are not product code
+			continue
+		}
+		for _, d := range f.Decls {
+			if fd, ok := d.(*ast.FuncDecl); ok {
+				if fd.Recv == nil {
+					funcs[fd.Name.Name] = fd
+				} else {
+					methods["."+fd.Name.Name] = append(methods["."+fd.Name.Name], fd)
+				}
+			}
 		}
 	}
 	ctor := funcs[xc09Constructor]
@@ -344,19 +371,42 @@ func extractClosureWrites(repo string, w *leanWriter) error {
 	for len(queue) > 0 {
 		name := queue[0]
 		queue = queue[1:]
-		fd, ok := funcs[name]
-		if !ok || seen[name] || fd.Body == nil {
+		if seen[name] {
+			continue
+		}
+		var fds []*ast.FuncDecl
+		if fd, ok := funcs[name]; ok {
+			fds = []*ast.FuncDecl{fd}
+		} else if ms, ok := methods[name]; ok {
+			fds = ms
+		}
+		if len(fds) == 0 {
 			continue
 		}
 		seen[name] = true
-		order = append(order, name)
-		sc := xc09Scope{}
-		xc09Params(fd.Type, sc)
-		ws, cs := xc09Analyse(fd.Body, sc, nil)
-		for _, x := range ws {
-			closureWrites = append(closureWrites, name+":"+x)
+		for _, fd := range fds {
+			if fd.Body == nil {
+				continue
+			}
+			label := name
+			sc := xc09Scope{}
+			if fd.Recv != nil {
+				// the receiver is shared with the caller like any pointer parameter
+				for _, fld := range fd.Recv.List {
+					for _, id := range fld.Names {
+						sc[id.Name] = xc09Shared
+					}
+					label = "(" + xc09ExprString(fld.Type) + ")" + name
+				}
+			}
+			order = append(order, label)
+			xc09Params(fd.Type, sc)
+			ws, cs := xc09Analyse(fd.Body, sc, nil)
+			for _, x := range ws {
+				closureWrites = append(closureWrites, label+":"+x)
+			}
+			queue = append(queue, cs...)
 		}
-		queue = append(queue, cs...)
 	}
 	sort.Strings(order)
 
